@@ -487,6 +487,8 @@ func (e *Env) dispatch(t []string) (string, []string) {
 			msg.BidType = types.BidTypeBatchMany
 		case "X":
 			msg.BidType = types.BidType(7)
+		case "N":
+			msg.BidType = types.BidType(0) // BID_TYPE_UNSPECIFIED: the field left out
 		default:
 			p.fail("bad bid type %q", bt)
 		}
